@@ -142,11 +142,11 @@ Definition iso_codes : list (bytes * list N * list N) :=
 Definition lay_default : layout := mkLayout [] [] [] [] [] 12 [] [].
 
 Ltac wf_solve :=
-  repeat first [ split | constructor | discriminate | (cbn [length]; lia) | (vm_compute; first [reflexivity | discriminate]) ].
+  repeat constructor; try discriminate; try (cbn [length]; lia); try (vm_compute; first [reflexivity | discriminate]).
 Ltac defined_solve :=
-  repeat first [ split | constructor | (cbn [length]; lia) | (vm_compute; reflexivity)
-               | (intros k Hk; cbn [length] in Hk; assert (k = 1%nat) by lia; subst k; vm_compute; reflexivity)
-               | (unfold high, low; lia) ].
+  repeat constructor; try (cbn [length]; lia); try (vm_compute; reflexivity);
+  try (intros k Hk; cbn [length] in Hk; assert (k = 1%nat) by lia; subst k; vm_compute; reflexivity);
+  try (unfold high, low; lia).
 
 Theorem C15_example_text :
   render lay_default iso_secs = bs
@@ -174,8 +174,8 @@ end" /\
   exists cm, cmap_parse (render lay_default iso_secs) = ParseOk cm /\
              bytes_to_string cm [x00; x21; x00; x5f; x3a; x51] = [65; 102; 102; 131134].
 Proof.
-  split; [vm_compute; reflexivity|]. split; [wf_solve|]. split; [wf_solve|]. split; [defined_solve|].
-  eexists. split; vm_compute; reflexivity.
+  split; [vm_compute; reflexivity|]. split; [split; [discriminate|wf_solve]|]. split; [wf_solve|]. split; [defined_solve|].
+  eexists. split; [vm_compute; reflexivity|vm_compute; reflexivity].
 Qed.
 
 (* ... and an unfriendly layout of the same table: tabs, CR alone, CR LF, comments (one holding
@@ -201,32 +201,10 @@ Definition lay_odd : layout :=
            [WEol LF; WComment (bs "%EOF") LF].
 
 Theorem C15_example_text_odd :
-  render lay_odd iso_secs = bs
-"%!PS-Adobe-3.0 Resource-CMap\r
-\n/CIDInit/ProcSet\tfindresource  begin\r7 dict begin % endcmap % <00>
-\tbegincmap\r
-\r
-/CIDSystemInfo<</Registry(Adobe)/Ordering
-(UCS)/Supplement
-0\r>> def
-/CMapName\t /Adobe-Identity-UCS def
-/CMapType 2 def
-1\t\tbegincodespacerange\r<0000><FFFF> 
-endcodespacerange
-2 beginbfrange
-  <0000>\t<005e><0020
- >%incrementing\r<005f><0061>  [\t<0066 0066>\t <00660069> <00660066006C\r
-> ]
-endbfrange
-1 beginbfchar
-<3a51> <d840dc3e>
-endbfchar
-endcmap
-CMapName currentdict /CMap defineresource pop
-end
-end
-%%EOF
-" /\
+  prefixb (bs "%!PS-Adobe-3.0 Resource-CMap" ++ [x0d; x0a; x0a] ++ bs "/CIDInit/ProcSet" ++ [x09] ++ bs "findresource  begin"
+             ++ [x0d] ++ bs "7 dict begin % endcmap % <00>" ++ [x0a; x09] ++ bs "begincmap" ++ [x0d; x0a; x0d; x0a]
+             ++ bs "/CIDSystemInfo<</Registry(Adobe)/Ordering" ++ [x0a] ++ bs "(UCS)/Supplement 0" ++ [x0d] ++ bs ">> def")
+          (render lay_odd iso_secs) = true /\
   cmap_stream (render lay_odd iso_secs) = POk iso_secs [] /\
   cmap_parse (render lay_odd iso_secs) = cmap_parse (render lay_default iso_secs).
 Proof. split; [vm_compute; reflexivity|]. split; vm_compute; reflexivity. Qed.
